@@ -156,7 +156,7 @@ fn run_case(ep: &LiveEndpoint, origin_l: &TcpListener, c: &Case) -> Result<(), S
                 Ok(n) => up_off += n,
                 Err(e) => return Err(format!("client could not send after {} bytes: {}", up_off, e)),
             }
-        } else if c.end == 'c' && !client_ended {
+        } else if (c.end == 'c' || (c.end == 'O' && !origin_open)) && !client_ended {
             if cl.finish(id)? {
                 client_ended = true;
             }
@@ -188,13 +188,14 @@ fn run_case(ep: &LiveEndpoint, origin_l: &TcpListener, c: &Case) -> Result<(), S
             if let Ok(n) = origin.write(&down[down_off..end]) {
                 down_off += n;
             }
-        } else if origin_open && c.end == 'o' && down_off == down.len() && origin_got.len() == up.len() {
+        } else if origin_open && ((c.end == 'o' && down_off == down.len() && origin_got.len() == up.len()) || (c.end == 'O' && down_off == down.len())) {
+            // 'O': the origin ends its side as soon as it has sent everything, while the client is still uploading
             let _ = origin.shutdown(std::net::Shutdown::Write);
             origin_open = false;
         }
         let st = cl.stream(id);
         let client_eof = st.finished || st.reset.is_some();
-        let done = origin_got.len() >= up.len() && st.body.len() >= down.len() && (c.end != 'o' || client_eof) && (c.end != 'c' || origin_saw_fin);
+        let done = origin_got.len() >= up.len() && st.body.len() >= down.len() && (c.end != 'o' || client_eof) && (c.end != 'c' || origin_saw_fin) && (c.end != 'O' || (client_eof && origin_saw_fin));
         if (origin_got.len(), st.body.len()) != last_sizes {
             last_sizes = (origin_got.len(), st.body.len());
             last_progress = Instant::now();
@@ -226,6 +227,12 @@ fn run_case(ep: &LiveEndpoint, origin_l: &TcpListener, c: &Case) -> Result<(), S
             }
             if c.end == 'o' && !st.finished {
                 problems.push(format!("the origin closed after its last byte but the client's stream was not ended (reset: {:?}, connection closed: {})", st.reset, cl.conn.is_closed()));
+            }
+            if c.end == 'O' && (!st.finished || !origin_saw_fin) {
+                problems.push(format!(
+                    "the origin ended its side early and the client finished its upload afterwards: the client's stream ended: {} (reset {:?}), the origin saw the end of the upload: {}",
+                    st.finished, st.reset, origin_saw_fin
+                ));
             }
             if c.end == 'c' && !origin_saw_fin {
                 problems.push("the client ended its stream after its last byte but the origin never saw the end of the stream".to_string());
@@ -381,8 +388,12 @@ pub fn run(ctx: &mut Ctx) {
     for window in [1u64 << 20, 8192] {
         for (up, down) in [(70_000usize, 0usize), (0, 70_000), (big, big), (1, 1), (0, 0)] {
             for (client_step, origin_step) in [(0usize, 0usize), (700, 0), (0, 900)] {
-                for end in ['o', 'c'] {
+                for end in ['o', 'c', 'O'] {
                     if (client_step != 0 && down == 0) || (origin_step != 0 && up == 0) {
+                        continue;
+                    }
+                    // the early half-close of the origin only differs from 'o' when something is still being uploaded
+                    if end == 'O' && (up < 70_000 || client_step != 0) {
                         continue;
                     }
                     // a small window with a slow side and the big transfer takes too long for the quick tier
@@ -395,7 +406,7 @@ pub fn run(ctx: &mut Ctx) {
         }
     }
     if !ctx.thorough() {
-        cases = cases.into_iter().enumerate().filter(|(i, _)| i % 3 == (ctx.seed % 3) as usize).map(|(_, c)| c).collect();
+        cases = cases.into_iter().enumerate().filter(|(i, c)| c.end == 'O' || i % 3 == (ctx.seed % 3) as usize).map(|(_, c)| c).collect();
     }
     for (who, busy) in [('r', false), ('r', true), ('x', false), ('x', true)] {
         ctx.stat("live_h3_failing_tunnels");
@@ -423,7 +434,11 @@ pub fn run(ctx: &mut Ctx) {
             c.down,
             if c.client_step == 0 { "everything".to_string() } else { c.client_step.to_string() },
             if c.origin_step == 0 { "everything".to_string() } else { c.origin_step.to_string() },
-            if c.end == 'o' { "the origin" } else { "the client" }
+            match c.end {
+                'o' => "the origin",
+                'O' => "the origin (as soon as it has sent everything, the client still uploading)",
+                _ => "the client",
+            }
         );
         ctx.stat("live_h3_tunnels");
         match catch(std::panic::AssertUnwindSafe(|| run_case(&ep, &origin_l, &c))) {
